@@ -494,6 +494,10 @@ func (cl *cluster) apply(ev string) {
 			return jsync.NewTask("http://"+ctlHost+":9501").AddReplica(addr(i), rn.srv)
 		})
 		cl.observe("%s -> %s", ev, cl.taskDesc())
+	case "Boot":
+		cl.boot(ev, atoi(f[1]))
+	case "StepB":
+		cl.stepBoot(ev, atoi(f[1]), before)
 	case "Step":
 		cl.stepTask(cl.task)
 		cl.observe("Step -> %s", cl.taskDesc())
